@@ -8,9 +8,10 @@ THEOREMS = ["C14_parse_callback", "C14_parse_callback_str", "C14_stored_value", 
 PARTIAL = ("Proved for an arbitrary callback oracle: the parse callback gets exactly the decoded token and its result is what is stored (or the value is "
            "refused); right after a stored value the next invocation is the option's validation callback with a snapshot containing that value, and a "
            "non-zero verdict rejects the parse; function callbacks receive the collected arguments in order; after a rejection no later token changes "
-           "anything (C14_failure_stops, induction over the remaining tokens); the pre-set validator runs first and can veto or rewrite. Not proved: "
-           "the whole-text statement 'trace = specTrace(items)' for arbitrary item lists (needs the C01 refinement); the tie compares complete "
-           "invocation logs for every failing index k.")
+           "anything (C14_failure_stops); the pre-set validator runs first and can veto or rewrite; the invocation log and the diagnostics only grow, in "
+           "token order, whatever happens later (C14_log_monotone: one lemma per parser state), so the log of a text is the concatenation of what its "
+           "pieces caused (C14_items_in_order). Not proved: a closed formula trace = specTrace(items); the tie compares complete invocation logs for "
+           "every failing index k.")
 VARIANT = "asan"
 RULE = ("random schemas in which any subset of options carries a value-parsing, validation, pre-set validation, function or release "
         "callback (declared, or registered afterwards by schema path) x grammar-derived texts x 'the k-th callback invocation fails' "
@@ -26,7 +27,7 @@ def strip_cbs(opts, keep):
 def generate(rng, tier):
     cases = []
     n = 0
-    nschema = 60 if tier == "quick" else 700
+    nschema = 60 if tier == "quick" else 250
     per = 6 if tier == "quick" else 12
     maxk = 6 if tier == "quick" else 40
     for _ in range(nschema):
